@@ -42,7 +42,17 @@ func newStream(name string) *stream {
 type SimConn struct {
 	rd, wr *stream
 	label  string
+	// write deadline, honoured against the (fake) clock; read deadlines are not modelled
+	dlMu sync.Mutex
+	wdl  time.Time
 }
+
+// timeoutError is what a net.Conn returns when a deadline has passed.
+type timeoutError struct{}
+
+func (timeoutError) Error() string   { return "i/o timeout" }
+func (timeoutError) Timeout() bool   { return true }
+func (timeoutError) Temporary() bool { return true }
 
 // NewConnPair makes the two ends of a connection a<->b.
 func NewConnPair(a, b string) (*SimConn, *SimConn) {
@@ -74,6 +84,12 @@ func (c *SimConn) Read(p []byte) (int, error) {
 
 // Write never blocks: the bytes are in flight until delivered.
 func (c *SimConn) Write(p []byte) (int, error) {
+	c.dlMu.Lock()
+	expired := !c.wdl.IsZero() && !time.Now().Before(c.wdl)
+	c.dlMu.Unlock()
+	if expired {
+		return 0, timeoutError{}
+	}
 	s := c.wr
 	s.mu.Lock()
 	defer s.mu.Unlock()
@@ -144,9 +160,14 @@ func (a simAddr) String() string  { return string(a) }
 
 func (c *SimConn) LocalAddr() net.Addr                { return simAddr(c.label) }
 func (c *SimConn) RemoteAddr() net.Addr               { return simAddr(c.label + "-peer") }
-func (c *SimConn) SetDeadline(t time.Time) error      { return nil }
-func (c *SimConn) SetReadDeadline(t time.Time) error  { return nil }
-func (c *SimConn) SetWriteDeadline(t time.Time) error { return nil }
+func (c *SimConn) SetDeadline(t time.Time) error     { return c.SetWriteDeadline(t) }
+func (c *SimConn) SetReadDeadline(t time.Time) error { return nil }
+func (c *SimConn) SetWriteDeadline(t time.Time) error {
+	c.dlMu.Lock()
+	c.wdl = t
+	c.dlMu.Unlock()
+	return nil
+}
 
 // pending tells how many bytes are in flight on the stream.
 func (s *stream) pending() int {
